@@ -78,7 +78,7 @@ theorem C02_aggregate_verifies (E : StmVerify.Env) (stakeOf : Nat → Nat) (sigs
 /-- non-vacuity of the hypotheses of `C02_aggregate_verifies` -/
 example : StmVerify.verify { m := 10, k := 3, won := fun _ _ _ => true, batchOk := fun _ => true, aggOk := fun _ => true }
     ((match selectMerged 3 [s1, s2, s1] with | .ok o => o | .error _ => []).map (ClerkVerify.conv fun _ => 1)) = .ok () := by
-  decide +kernel
+  rfl
 
 /-- non-vacuity: a list with a shared index AND a repeated signature is aggregated -/
 example : ∃ r, selectMerged 3 [s1, s2, s1] = .ok r := ⟨_, rfl⟩
